@@ -70,6 +70,12 @@ func (p RemotePackage) subPathString(subPath string) string {
 	// now tweak the package URL to be a sub-path URL instead.
 	subURL := p.url // shallow copy
 	subURL.Path += "//" + subPath
+	if subURL.RawPath != "" {
+		// Keep the package part spelled (escaped) exactly as it is when
+		// printed on its own, or the result would parse back to a different
+		// package address.
+		subURL.RawPath += "//" + (&url.URL{Path: subPath}).EscapedPath()
+	}
 	if subURL.Scheme == p.sourceType {
 		return subURL.String()
 	}
